@@ -18,7 +18,7 @@ DEMO=$(head -1 $SEED/demo_test.go | grep -o 'v4/[A-Za-z0-9_/.-]*_test.go' | head
 PKG=./$(dirname ${DEMO#v4/})
 echo "== demo placed at $DEMO (package $PKG)"
 cp $SEED/demo_test.go $WT/$DEMO
-( cd $WT/v4 && GOCACHE=$SCRATCH_CACHE go test -vet=off -count=1 $PKG 2>&1 | tail -3 ) > /tmp/seedtest.clean.$$ 2>&1
+( cd $WT/v4 && export GOCACHE=$SCRATCH_CACHE && go test -vet=off -count=1 $PKG 2>&1 | tail -3 ) > /tmp/seedtest.clean.$$ 2>&1
 grep -q "^ok" /tmp/seedtest.clean.$$ && echo "demo on clean tree: PASS" || { echo "demo on clean tree: FAIL (bad demo)"; cat /tmp/seedtest.clean.$$; }
 rm -f $WT/$DEMO
 if ! git -C $WT apply $SEED/patch.diff 2>/dev/null; then
@@ -27,10 +27,10 @@ if ! git -C $WT apply $SEED/patch.diff 2>/dev/null; then
   echo "patch does not apply to HEAD; using the commit it was written against ($BASE)"
   git -C $WT checkout -q --detach $BASE && git -C $WT apply $SEED/patch.diff || { echo "patch does not apply"; exit 3; }
 fi
-( cd $WT/v4 && GOCACHE=$SCRATCH_CACHE go build ./... && go test -vet=off -count=1 ./... 2>&1 | tail -6 ) > /tmp/seedtest.suite.$$ 2>&1
+( cd $WT/v4 && export GOCACHE=$SCRATCH_CACHE && go build ./... && go test -vet=off -count=1 ./... 2>&1 | tail -6 ) > /tmp/seedtest.suite.$$ 2>&1
 grep -q "FAIL\|cannot\|error" /tmp/seedtest.suite.$$ && { echo "suite with change: FAIL (not a valid seed)"; cat /tmp/seedtest.suite.$$; } || echo "suite with change: PASS"
 cp $SEED/demo_test.go $WT/$DEMO
-( cd $WT/v4 && GOCACHE=$SCRATCH_CACHE timeout 300 go test -vet=off -count=1 $PKG 2>&1 | tail -15 ) > /tmp/seedtest.demo.$$ 2>&1
+( cd $WT/v4 && export GOCACHE=$SCRATCH_CACHE && timeout 300 go test -vet=off -count=1 $PKG 2>&1 | tail -15 ) > /tmp/seedtest.demo.$$ 2>&1
 grep -q "^ok" /tmp/seedtest.demo.$$ && echo "demo with change: PASS (demo does not show the bug)" || echo "demo with change: FAIL (as intended)"
 rm -f /tmp/seedtest.*.$$
 # now the checks, against the scratch worktree with the change applied (VERIF_REPO), evidence/replays to a scratch dir
